@@ -548,6 +548,25 @@ func (s *Server) getWorkspaceResolved(docURI protocol.DocumentURI) *include.Reso
 	return s.GetResolved(docURI)
 }
 
+// resolvedForDocument returns the resolved tree used to answer cross-file
+// requests (definition, references, rename) made from docURI, together with
+// the path of the file its Primary journal belongs to. The workspace tree's
+// primary is the workspace root journal, not the requesting document, so the
+// two must not be confused: labelling the root's syntax tree with the path of
+// an included file attributes the root's occurrences to the wrong file.
+func (s *Server) resolvedForDocument(docURI protocol.DocumentURI) (*include.ResolvedJournal, string) {
+	docPath := uriToPath(docURI)
+	if s.workspace != nil {
+		if resolved := s.workspace.GetResolved(); resolved != nil {
+			rootPath := s.workspace.RootJournalPath()
+			if _, member := resolved.Files[docPath]; member || docPath == rootPath {
+				return resolved, rootPath
+			}
+		}
+	}
+	return s.GetResolved(docURI), docPath
+}
+
 func (s *Server) RootURI() string {
 	return s.rootURI
 }
